@@ -39,6 +39,15 @@ mut('m18-read-fill-writes', (D, "    fn read_fill_buffer(&mut self) -> Result<()
 mut('m19-stats-free-count-off', (P, "            while !free_next_offset.is_zero() {\n                count += 1;", "            while !free_next_offset.is_zero() {\n                count += if count < 3 { 1 } else { 0 };"))
 mut('m20-params-override-buckets-on-reopen', (H, "            file_nc.buckets_size = file_nc.file.read_hash_buckets_size()?;", "            file_nc.buckets_size = match params.buckets_size {\n                HashBucketsParam::BucketsSize(x) if x == 3 => 4,\n                _ => file_nc.file.read_hash_buckets_size()?,\n            };"))
 
+# --- property-preserving changes: every check must stay quiet on them
+mut('benign-01-flush-order-reversed', (D, "            self.val_file.flush()?;\n            self.key_file.flush()?;\n            self.htx_file.flush()?;", "            self.htx_file.flush()?;\n            self.key_file.flush()?;\n            self.val_file.flush()?;"))
+mut('benign-02-sync-all-uses-fdatasync-for-key', (D, "            self.val_file.sync_all()?;\n            self.key_file.sync_all()?;", "            self.val_file.sync_all()?;\n            self.key_file.sync_data()?;"))
+mut('benign-03-min-8-buckets-at-creation', (H, "HashBucketsParam::BucketsSize(x) => x.next_power_of_two(),", "HashBucketsParam::BucketsSize(x) => x.next_power_of_two().max(8),"))
+mut('benign-04-key-slot-sized-from-stored-width', (K, "let enc_val_off = vu64::encoded_len(self.value_offset.as_value()) as u32;", "let enc_val_off = vu64::encoded_len(self.value_offset.as_value() / 8) as u32;"),
+    (K, "let enc_buck_next_off = vu64::encoded_len(self.bucket_next_offset.as_value()) as u32;", "let enc_buck_next_off = vu64::encoded_len(self.bucket_next_offset.as_value() / 8) as u32;"))
+mut('benign-05-flush-always-writes', (D, "    fn flush(&mut self) -> Result<()> {\n        if self.is_dirty() {", "    fn flush(&mut self) -> Result<()> {\n        if self.is_dirty() || true {"))
+mut('benign-06-read-fill-buffer-noop', (D, "        self.val_file.read_fill_buffer()?;\n        self.key_file.read_fill_buffer()?;\n        self.htx_file.read_fill_buffer()?;\n        Ok(())", "        Ok(())"))
+
 def main():
     out='/verif/mutants'
     os.makedirs(out, exist_ok=True)
